@@ -431,6 +431,7 @@ impl<'a> P<'a> {
                 self.push(Tok::Block(r))
             }
             c if !c.is_ascii() => rej(Class::NonAscii),
+            c if c.is_ascii_alphabetic() => Err(Verdict::MustNotAccept("`#` followed by a letter that is no radix letter")),
             _ => uns("`#` followed by neither radix letter nor digit"),
         }
     }
